@@ -45,15 +45,23 @@ LEVEL_NOTE = ("The algebra of SVD::svd is proved (Props/C01/SvdDecomp.lean: ever
               "A = U diag(W) V', V'V = 1, the columns of U with W != 0 are orthonormal, W >= 0), and every svd theorem is "
               "stated without a factorisation certificate (C01_svd_decompose, C01_svd_solve_decompose, C01_adj_svd_decompose, "
               "C01_net_svd_decompose: hypothesis = the run returned and the returned singular values are 0 or above "
-              "W_tol*max W); what the per-run numeric certificate (tools/props/svd_cert.py) still stands for is that the "
+              "W_tol*max W; from the input side that premise follows from SingGap A P tau = every eigenvalue of A'PA is 0 or above "
+              "tau^2 x every eigenvalue: C01_singgap_unambiguous, so svd joins the one-hypothesis theorems C01_adj_of_gap_all, "
+              "C01_net_of_gap_all, C01_net_of_inputgap, Props/C01/SvdGap.lean, InputGap.lean); what the per-run numeric certificate (tools/props/svd_cert.py) still stands for is that the "
               "double-precision run converges and that the elements it treats as negligible are negligible. "
-              + "What remains outside the theorems, precisely: (1) IEEE rounding and libm (theorems over exact ordered fields); (2) convergence of the QR iteration of SVD::svd = that the model Svd.decompose RETURNS (it throws NoConvergence after 30 sweeps per singular value; in exact arithmetic it reaches an exact zero only for special inputs); (3) the exact-zero reading of every negligibility / rank test: each solver theorem asks that every quantity its run compares with a tolerance is exactly 0 or above it (FactUnambiguous / SolveUnambiguous, UnambiguousF, Gso.Unambiguous, Svd.Unambiguous of the returned singular values; from an exact gap of A'PA: Props/C01/Gap.lean, Gap2.lean); (4) that the codes' ABSOLUTE tolerances (sqrt(eps) pivot tests of Envelope/BlockDiagonal/AdjCholDec) do not scale with the weights is a property of the real code recorded as known findings F22, C09-F2, C10-TINY, C19-envelope-defect-undercount, not something the theorems cover. "
+              + "What remains outside the theorems, precisely: (1) IEEE rounding and libm (theorems over exact ordered fields); (2) convergence of the QR iteration of SVD::svd = that the model Svd.decompose RETURNS (it throws NoConvergence after 30 sweeps per singular value; in exact arithmetic it reaches an exact zero only for special inputs); (3) the exact-zero reading of every negligibility / rank test: each solver theorem asks that every quantity its run compares with a tolerance is exactly 0 or above it (FactUnambiguous / SolveUnambiguous, UnambiguousF, Gso.Unambiguous, Svd.Unambiguous of the returned singular values; from an exact gap of A'PA: Props/C01/Gap.lean, Gap2.lean, SvdGap.lean; ONE input-side hypothesis per facade theorem and algorithm, InputGap alg A P S tau = RankGap + thresholds for env/chol/gso, SingGap for svd: C01_net_of_inputgap, C01_adj_of_inputgap, and Net/AdjM.SolverHyp derived from it); (4) that the codes' ABSOLUTE tolerances (sqrt(eps) pivot tests of Envelope/BlockDiagonal/AdjCholDec) do not scale with the weights is a property of the real code recorded as known findings F22, C09-F2, C10-TINY, C19-envelope-defect-undercount, not something the theorems cover. "
               + "The LocalNetwork entry point is "
               "covered from the assembled system on (Props/C01/NetFacade.lean, stream netfacade on real LocalNetwork "
               "objects; the cofactor accessors qxx/qbb/weight_obs/stdev_obs/wcoef_res are in the model and the stream, their "
-              "theorems are C03_net_cofactors, C02_same_net, C08_net_datum, Props/C09Net.lean): the assembly itself (linearisation, revision, min_x list) is C05/C14/C08's, and its outputs "
-              "(distinct in-range columns per row, clusters partitioning the rows) enter the C01_net theorems as "
-              "hypotheses; the repeat loop of vyrovnani_ that removes points with huge covariances is C20's.")
+              "theorems are C03_net_cofactors, C02_same_net, C08_net_datum, Props/C09Net.lean) and, since rounds 3c-8, from the network on: "
+              "project_equations() is an executed model (Model/ProjectEquations.lean, drv_pe, stream pe of C05) whose outputs are theorems "
+              "(Props/C01/ProjectEquations.lean: rows in range, clusters partition the rows, the min_x list, every element of unknowns_ "
+              "written once; distinct columns per row only under NoAlias = no observation names one point in two roles, which gama-local "
+              "does not enforce - it accepts from == to), composed in C01_net_of_project_equations_gap (network -> weighted LS solution for "
+              "env/chol/gso from RankGap on (A, m0^2 Sigma^-1, min_x) alone) and C01_pe_matrix_is_jacobian (the matrix of that conclusion "
+              "is C05's Jacobian, carrier R); a joint witness over R at LocalNetwork level (correlated cluster with an excluded "
+              "observation, defect 1; Props/C01/NetWitness.lean, InputGap.lean) meets all hypotheses at once. The linearisation "
+              "coefficients are C05's, revision C14's; the repeat loop of vyrovnani_ that removes points with huge covariances is C20's.")
 TECHNIQUE = "Lean 4 proof (ordered-field algebra, induction over the factorisation loops) + model/implementation correspondence"
 MODELLED = ["IEEE rounding (proofs over exact ordered fields)", "SVD::svd: convergence of the QR iteration and its negligibility tests under rounding (numeric certificate per run; the algebraic part is proved: C01_svd_decompose_cert)",
             "memory management of the solver objects",
